@@ -602,6 +602,15 @@ package statefulset
 //@   ensures err == nil ==> key == keyOfObj(obj)
 //@   ensures typeIs(obj, "*apps.StatefulSet") && asRef(obj, "*apps.StatefulSet") != nil ==> err == nil && key == setKey(asRef(obj, "*apps.StatefulSet"))
 
+// The update handler the controller registers for StatefulSet events (the function literal in NewStatefulSetController;
+// the add and delete handlers are enqueueStatefulSet itself).  That these are the functions registered is wiring, read not proved.
+//@ func NewStatefulSetController$lit1
+//@   params old, cur
+//@   requires informer: typeIs(old, "*apps.StatefulSet") && asRef(old, "*apps.StatefulSet") != nil && typeIs(cur, "*apps.StatefulSet") && asRef(cur, "*apps.StatefulSet") != nil
+//@   requires ssc != nil && ssc.queue != nil
+//@   modifies gEnq
+//@   ensures [C16] setchange: gEnq == store(old(gEnq), setKey(asRef(cur, "*apps.StatefulSet")), true)
+
 //@ func StatefulSetController.enqueueStatefulSet
 //@   requires ssc != nil && ssc.queue != nil
 //@   modifies gEnq
@@ -846,6 +855,20 @@ package statefulset
 
 // ---- sync (C11, C10, C09) ----------------------------------------------------------------------------------
 //@ spec func pausedS(s *apps.StatefulSet) bool = s.Annotations != nil && s.Annotations.has("paused-reconcile") && s.Annotations["paused-reconcile"] == "true"
+
+// the two closures getPodsForStatefulSet hands to the reference manager, verified as functions of their own
+// (captured variables are parameters): the name filter and the uncached re-read that must confirm the UID
+//@ func StatefulSetController.getPodsForStatefulSet$lit1
+//@   requires pod != nil && set != nil
+//@   pure
+//@   ensures [C10] namefilter: result == (parentName(pod.Name) == set.Name)
+//@ func StatefulSetController.getPodsForStatefulSet$lit2
+//@   results obj, err
+//@   requires ssc != nil && set != nil && ssc.pcClient != nil
+//@   modifies gApiFails
+//@   ensures gApiFails >= old(gApiFails)
+//@   ensures [C10] sameuid: err == nil ==> typeIs(obj, "*apps.StatefulSet") && asRef(obj, "*apps.StatefulSet") != nil && asRef(obj, "*apps.StatefulSet").UID == set.UID
+//@   ensures [C09] origin: err != nil ==> gApiFails > old(gApiFails) || errLocal(err)
 
 //@ func StatefulSetController.getPodsForStatefulSet
 //@   profiles defaulted, crd
